@@ -129,6 +129,7 @@ func zvC11Differ(u zvC11Uni, a, b int) string {
 // zvC11Step replays hist on a fresh AdjRIBOut in lock-step with the model and
 // evaluates the oracle on the last operation.
 func zvC11Step(r *vh.Run, u zvC11Uni, hist []zvC11Op) (string, []zvC11Op, bool) {
+	zvoFresh()
 	c := zvC11Case{u, hist}
 	rec := &zvoRec{}
 	a := New(nil, zvC11Session(u.Session), filter.NewAcceptAllFilterChain())
